@@ -269,6 +269,13 @@ func c14One(rpcs [][2]string, bound int) *explore.Scenario {
 			w := env.NewWorld()
 			d := env.NewDirect(w, env.DirectOpts{Pipe: env.PipeOpts{Cap: 64}})
 			vsched.Settle()
+			if d.Virtual {
+				// a demultiplexer / proxy in between sets up its logical connection (and the Serve
+				// behind it) at the first envelope: "idle" is the state after a first call
+				wu := w.Rec("warmup", "Unary")
+				vsched.GoNamed("warmup", func() { w.CallUnary(d.CC, context.Background(), wu, "x") })
+				vsched.Settle()
+			}
 			idle := c14State(d)
 			vsched.Explore(true)
 			for i, r := range rpcs {
@@ -291,8 +298,16 @@ func c14One(rpcs [][2]string, bound int) *explore.Scenario {
 			d.Pipe.A.Break()
 			d.Pipe.B.Break()
 			vsched.Quiesce()
-			if !d.ServeDone {
+			if !d.ServeDone && !d.Virtual {
 				vsched.Fail(fam+"|serve-hang", "after %v: Serve does not return when the connection closes (a stream registration leaked?): %s", rpcs, threadList())
+			}
+			if d.Virtual {
+				// behind a demultiplexer / proxy the logical connection outlives the client's pipe: Stop ends its Serve
+				d.Srv.Stop()
+				vsched.Quiesce()
+				if !d.ServeDone {
+					vsched.Fail(fam+"|serve-hang", "after %v (%s in between): Serve does not return on Stop (a stream registration leaked?): %s", rpcs, "a demultiplexer or proxy", threadList())
+				}
 			}
 		},
 	}
